@@ -61,3 +61,18 @@ Proof.
   - exact (traverse_file_ok p (side_rl p Hs) (side_br p Hs) st L t HL Hwf (no_collision_store_ok p t st Hnc Hincl)).
   - exact (pyramid_file_ok p (side_rl p Hs) (side_br p Hs) st L t HL Hwf (no_collision_store_ok p t st Hnc Hincl)).
 Qed.
+
+(** chunk level of a loaded trie: if every reference the walk hands out is the root of a
+    well-formed file whose chunks are in the (collision-free) chunk store, the traversal
+    reports exactly those files' chunks *)
+Lemma manifest_refs_gen : forall p, side p = true -> forall (L : nat) (m : mnode) (st : store) (files : ref -> tree),
+  (L <= depth_fuel)%nat -> NoCollisionAmong st ->
+  (forall r, In r (mrefs m) -> tref (files r) = r /\ wf_file p L (files r) = true /\ incl (entries p (files r)) st) ->
+  traverse_manifest p st m = LDone (flat_map (fun r => written (files r)) (mrefs m)) /\
+  pyramid_manifest p st m = LDone (flat_map (fun r => pyramid_of (files r)) (mrefs m)).
+Proof.
+  intros p Hs L m st files HL Hnc Hfiles. split; apply walk_mrefs; intros r Hr;
+    destruct (Hfiles r Hr) as [Href [Hwf Hincl]]; rewrite <- Href at 1.
+  - exact (traverse_file_ok p (side_rl p Hs) (side_br p Hs) st L _ HL Hwf (no_collision_store_ok p _ st Hnc Hincl)).
+  - exact (pyramid_file_ok p (side_rl p Hs) (side_br p Hs) st L _ HL Hwf (no_collision_store_ok p _ st Hnc Hincl)).
+Qed.
